@@ -195,6 +195,48 @@ def scan_coverage_rule(ctx: Ctx, rule: str) -> None:
                ok, {"rows": rows, **({"path": problems[0][1].path.describe()[-12:]} if problems else {})}, "" if ok else (problems[0][0] if problems else f"a row of the scan preparation vanished: {rows}"))
 
 
+STATUS_UNIVERSE_UP = ["PASS", "WARN", "FAIL", "ERROR", "SKIP", "CANCEL", "INTERRUPTED", "UNKNOWN"]
+
+
+def _truth_over_statuses(test: ast.AST, subject: str):
+    """For a boolean expression over comparisons of `subject` with constants: the statuses for which it is true (None if not interpretable)."""
+    def ev(n, s):
+        if isinstance(n, ast.BoolOp):
+            vals = [ev(v, s) for v in n.values]
+            if any(v is None for v in vals):
+                return None
+            return all(vals) if isinstance(n.op, ast.And) else any(vals)
+        if isinstance(n, ast.UnaryOp) and isinstance(n.op, ast.Not):
+            v = ev(n.operand, s)
+            return None if v is None else not v
+        if isinstance(n, ast.Compare) and len(n.ops) == 1 and ast.unparse(n.left) == subject:
+            c = n.comparators[0]
+            if isinstance(c, ast.Constant):
+                vals = c.value
+            elif isinstance(c, (ast.List, ast.Tuple, ast.Set)) and all(isinstance(e, ast.Constant) for e in c.elts):
+                vals = [e.value for e in c.elts]
+            else:
+                return None
+            op = n.ops[0]
+            if isinstance(op, ast.Eq):
+                return s == vals
+            if isinstance(op, ast.NotEq):
+                return s != vals
+            if isinstance(op, ast.In):
+                return s in vals
+            if isinstance(op, ast.NotIn):
+                return s not in vals
+        return None
+    out = set()
+    for s in STATUS_UNIVERSE_UP:
+        v = ev(test, s)
+        if v is None:
+            return None
+        if v:
+            out.add(s)
+    return out
+
+
 def pass_only_rule(ctx: Ctx, rule: str) -> None:
     fref = f"{NODE}:TestNode.shared_result_worker_ids"
     fn = ctx.repo.func(fref)
@@ -211,12 +253,19 @@ def pass_only_rule(ctx: Ctx, rule: str) -> None:
     def is_add(c: ast.Call) -> bool:
         return call_name(c) in ("add", "update", "append", "extend") and recv_text(c) == acc
 
-    guard_rule(
-        ctx, rule, fref, views, is_add,
-        lambda v, i, c: norm.formula(ast.parse(f"{res}['status'] == 'PASS'", mode="eval").body),
-        min_sites=1, what="addition to the returned worker id set",
-        describe_required="the result being inspected has status PASS",
-    )
+    # which results credit their worker: exactly those of executions that provided the state (PASS, and WARN = passed with
+    # warnings; the runner itself turns an unusually slow PASS into WARN) — never a failed, skipped or pending one
+    skips = [i for i in outer[0].body if isinstance(i, ast.If) and len(i.body) == 1 and isinstance(i.body[0], ast.Continue) and not i.orelse
+             and f"{res}['status']" in ast.unparse(i.test)]
+    credited = None
+    if len(skips) == 1 and outer[0].body[0] is skips[0]:
+        skipped = _truth_over_statuses(skips[0].test, f"{res}['status']")
+        credited = None if skipped is None else set(STATUS_UNIVERSE_UP) - skipped
+    okc = credited == {"PASS", "WARN"}
+    ctx.record(rule, "TABLE", fref, "a result credits its worker as a producer exactly when its status is PASS or WARN", okc, {"credited": sorted(credited) if credited is not None else None},
+               "" if okc else (f"the statuses that credit a producing worker are {sorted(credited) if credited is not None else 'not a plain status test'}: "
+                               + ("a setup that ended WARN (e.g. a slow PASS, turned into WARN by the runner) produced its state but its worker's pool is not named to the dependants"
+                                  if credited is not None and "WARN" not in credited else "a worker is credited with a state it did not produce")))
     # no other way to fill the accumulator
     other = [n for n in ast.walk(fn.node) if isinstance(n, (ast.Assign, ast.AugAssign))
              and acc in {t.id for t in ast.walk(n.targets[0] if isinstance(n, ast.Assign) else n.target) if isinstance(t, ast.Name)}]
@@ -233,7 +282,7 @@ def pass_only_rule(ctx: Ctx, rule: str) -> None:
             norm.implies(v.premise(next(i for i, c in v.calls(is_add) if c is adds[0]), 0),
                          norm.formula(ast.parse(f"{wid} in {res}['name']", mode="eval").body))
             for v in views2)
-    ctx.record(rule + "c", "GUARD", fref, "a worker id is added only if it occurs in the PASS result's test name", ok2, {},
+    ctx.record(rule + "c", "GUARD", fref, "a worker id is added only if it occurs in the crediting result's test name", ok2, {},
                "" if ok2 else "a worker id is credited with a result whose name does not contain it")
 
 
@@ -377,7 +426,9 @@ MUTANTS = [
      "if next.should_run(worker):\n                        previous.drop_parent(next, worker)", "2/T.G4"),
     ("delete-setup-ready-test", G, "                if next.is_setup_ready(worker):\n                    await self.traverse_node(next, worker, params)",
      "                if True:\n                    await self.traverse_node(next, worker, params)", "1/T.G1"),
-    ("pass-to-fail", NODE, 'if result["status"] != "PASS":\n                continue', 'if result["status"] == "FAIL":\n                continue', "8"),
+    ("pass-to-fail", NODE, 'if result["status"] not in ["PASS", "WARN"]:\n                continue', 'if result["status"] == "FAIL":\n                continue', "8"),
+    ("warn-not-credited", NODE, 'if result["status"] not in ["PASS", "WARN"]:\n                continue', 'if result["status"] != "PASS":\n                continue', "8"),
+    ("P-credit-filter-as-conjunction", NODE, 'if result["status"] not in ["PASS", "WARN"]:\n                continue', 'if result["status"] != "PASS" and result["status"] != "WARN":\n                continue', None),
     ("pull-after-decision", G, "        test_node.pull_locations()\n\n        if test_node.should_run(worker):",
      "        if test_node.should_run(worker):\n            test_node.pull_locations()", "4/T.O1"),
     ("flat-parents-skipped", NODE, "            if not node.is_flat() and worker.id not in node.params[\"name\"]:\n                continue\n            if worker.id not in self._dropped_setup_nodes.get_workers(node):",
